@@ -71,7 +71,8 @@ def sniff(raw, default):
     a = raw.decode('ascii', 'ignore')
     for m in re.finditer(r'<meta\b([^>]*)>', a, re.I):
         attrs = {}
-        for am in re.finditer(r'([\w\-]+)\s*=\s*(?:"([^"]*)"|\'([^\']*)\'|([^\s>]+))', m.group(1)):
+        inner = re.sub(r'/\s*$', '', m.group(1))        # the '/' of a self-closing tag is not part of an unquoted value
+        for am in re.finditer(r'([\w\-]+)\s*=\s*(?:"([^"]*)"|\'([^\']*)\'|([^\s>]+))', inner):
             attrs[am.group(1).lower()] = next(g for g in am.groups()[1:] if g is not None)
         if attrs.get('http-equiv', '').lower() == 'content-type' and 'charset=' in attrs.get('content', '').lower():
             enc = attrs['content'].lower().split('charset=')[1].strip().rstrip('/ ').strip()
